@@ -19,7 +19,15 @@ from symx.runner import Case, main_run, replay_file
 PROP = 'C05'
 
 
-def make(ctx, conv):
+def make(ctx, conv, bounds_coords=False):
+    builders.BOUNDS_AS_COORDS = bounds_coords
+    try:
+        return _make(ctx, conv)
+    finally:
+        builders.BOUNDS_AS_COORDS = False
+
+
+def _make(ctx, conv):
     """Dataset with symbolic data on every grid kind, an integer variable, geometry."""
     from emsarray.conventions.grid import CFGrid1D, CFGrid2D
     from emsarray.conventions.shoc import ShocSimple, ShocStandard
@@ -36,6 +44,9 @@ def make(ctx, conv):
         data = {'temp': (('t', 'y', 'x'), sym('temp', (2, ny, nx))), 'botz': (('x', 'y'), sym('botz', (nx, ny))),
                 'count': (('y', 'x'), numpy.arange(10, 10 + ny * nx, dtype='int32').reshape(ny, nx)),
                 'single': (('one', 'y', 'x'), sym('single', (1, ny, nx))),
+                # values of other types: missing is NaT for instants and durations
+                'when': (('y', 'x'), (numpy.datetime64('2020-01-01T00:00', 'ns') + numpy.arange(ny * nx) * numpy.timedelta64(1, 'h')).reshape(ny, nx)),
+                'lag': (('x', 'y'), (numpy.arange(ny * nx) * numpy.timedelta64(90, 'm')).astype('timedelta64[ns]').reshape(nx, ny)),
                 'clock': (('t',), numpy.array([5.0, 6.0]))}
         ds = builders.cf1d(ny, nx, data_vars=data)
         cv = CFGrid1D(ds)
@@ -135,8 +146,8 @@ def check_selected(ctx, ds, out, info, kind, concrete_indexes, dim, label, drop_
         ctx.check(And(*oks), f'{label}: entry k holds the values stored at request k ({name})')
 
 
-def body_indexes(ctx, conv, kind, nreq, mode):
-    ds, cv, info = make(ctx, conv)
+def body_indexes(ctx, conv, kind, nreq, mode, bounds_coords=False):
+    ds, cv, info = make(ctx, conv, bounds_coords)
     dims, shape = info['kinds'][kind]
     reqs = []
     for k in range(nreq):
@@ -224,8 +235,8 @@ class DescendingTree:
         return numpy.sort(hits)[::-1]
 
 
-def body_points(ctx, conv, nreq, policy, api, dimname, boundary=False):
-    ds, cv, info = make(ctx, conv)
+def body_points(ctx, conv, nreq, policy, api, dimname, boundary=False, bounds_coords=False):
+    ds, cv, info = make(ctx, conv, bounds_coords)
     polygons = cv.polygons
     N = len(polygons)
     dims, shape = info['kinds']['face']
@@ -336,6 +347,12 @@ CONVS = {'cf1d': ['face'], 'cf2d': ['face'], 'shoc_simple': ['face'],
 
 def cases(tier):
     q = tier == 'quick'
+    # stored bounds held as xarray coordinates are still geometry: absent from every selection
+    for conv in ('cf2d', 'shoc_simple'):
+        yield Case(f'index:{conv}:face:select_indexes2:bounds-as-coordinates', body_indexes,
+                   dict(conv=conv, kind='face', nreq=2, mode='select_indexes', bounds_coords=True), max_paths=5000, split=8)
+        yield Case(f'points:{conv}:extract_dataframe:drop:2:bounds-as-coordinates', body_points,
+                   dict(conv=conv, nreq=2, policy='drop', api='extract_dataframe', dimname=None, bounds_coords=True), max_paths=5000, split=8)
     for conv, kinds in CONVS.items():
         for kind in kinds:
             yield Case(f'index:{conv}:{kind}:select_index', body_indexes, dict(conv=conv, kind=kind, nreq=1, mode='select_index'), max_paths=5000)
